@@ -61,9 +61,10 @@ func init() {
 			"'never early' is one-sided: the start instant is read before Play/MultiPlay is called, so machine load can only delay sends, never make the check fire",
 			"sysex events in tracks are not constrained (the statement speaks of channel messages and meta events)",
 		},
-		Require: []string{"plays", "sends_observed", "same_tick_runs_ge_13", "cross_track_same_tick", "selections_proper_subset", "maps_without_default", "never_early_checks", "play_single_port", "replays_with_rerouted_map", "late_schedule_plays", "round_gap_plays", "selections_with_repeated_tracks"},
-		Workers: 16,
-		Run:     runC12,
+		Require:         []string{"plays", "sends_observed", "same_tick_runs_ge_13", "cross_track_same_tick", "selections_proper_subset", "maps_without_default", "never_early_checks", "play_single_port", "replays_with_rerouted_map", "late_schedule_plays", "round_gap_plays", "selections_with_repeated_tracks", "long_plays_on_virtual_clock"},
+		FakeTimeWorkers: 2,
+		Workers:         16,
+		Run:             runC12,
 	})
 }
 
@@ -73,12 +74,22 @@ type c12Ev struct {
 	msg        []byte
 }
 
+var c12Start = time.Now()
+
 func runC12(c *mon.Ctx) {
 	runC12LateSchedule(c)
 	runC12RoundGaps(c)
-	c.Each("files", c.N(300, 30_000), func(i int64, r *mon.Rand) {
+	// slow = true (workers on the virtual process clock): musical tempi and long gaps, a play lasts minutes
+	// to days of virtual time and is played in full; the time of every send is exact there
+	files := func(i int64, r *mon.Rand, slow bool) {
 		nt := r.Range(1, 5)
 		res := int64(r.Pick(24, 96, 480))
+		tempo := func() uint32 {
+			if slow {
+				return uint32(r.Pick(250000, 500000, 500001, 1000000, 1<<24-1, 60000, 333333))
+			}
+			return uint32(r.Pick(500, 1000, 2000))
+		}
 		tm := &ref.TempoMap{Resolution: res}
 		var tracks [][]ref.EncEv
 		var truth []c12Ev
@@ -90,7 +101,7 @@ func runC12(c *mon.Ctx) {
 			var abs int64
 			if t == 0 {
 				// fast tempo at tick 0, sometimes a change later
-				f := uint32(r.Pick(500, 1000, 2000))
+				f := tempo()
 				tr = append(tr, ref.EncEv{Ev: ref.Ev{Delta: 0, Msg: ref.Meta(0x51, []byte{byte(f >> 16), byte(f >> 8), byte(f)})}})
 				tm.Events = append(tm.Events, ref.TempoEv{AbsTick: 0, USPerQuarter: f})
 			}
@@ -105,6 +116,9 @@ func runC12(c *mon.Ctx) {
 				if r.P(1, 3) {
 					d = uint32(r.Pick(0, 10, 20, 30)) // collide with other tracks
 				}
+				if slow && r.P(1, 6) {
+					d = uint32(r.Pick(960, 10_000, 100_000, 1_000_000)) // bars, minutes, hours
+				}
 				for j := 0; j < run; j++ {
 					abs += int64(d)
 					var m []byte
@@ -115,6 +129,9 @@ func runC12(c *mon.Ctx) {
 						m = []byte{0xF0, 0x7D, byte(id & 127), 0xF7}
 					case t == 0 && r.P(1, 25) && abs > 0:
 						f := uint32(r.Pick(400, 800, 1500, 3000))
+						if slow {
+							f = tempo()
+						}
 						m = ref.Meta(0x51, []byte{byte(f >> 16), byte(f >> 8), byte(f)})
 						if len(tm.Events) == 0 || tm.Events[len(tm.Events)-1].AbsTick <= abs {
 							tm.Events = append(tm.Events, ref.TempoEv{AbsTick: abs, USPerQuarter: f})
@@ -392,6 +409,21 @@ func runC12(c *mon.Ctx) {
 		if i < 1 {
 			c.Sample("file", map[string]any{"tracks": nt, "playable_messages": len(truth), "bytes": mon.Hex(head(b, 100))})
 		}
+		if slow {
+			c.Count("long_plays_on_virtual_clock", 1)
+		}
+	}
+	c.Each("files", c.N(300, 30_000), func(i int64, r *mon.Rand) { files(i, r, false) })
+	c.EachFT("long-plays", c.N(300, 20_000), func(i int64, r *mon.Rand) {
+		t0 := time.Now()
+		if t0.Sub(c12Start).Hours() > 120*365*24 {
+			// the virtual clock overflows about 250 years after its start: stay far away from that
+			files(i, r, false)
+			c.Count("long_plays_shortened_virtual_clock_budget", 1)
+			return
+		}
+		files(i, r, true)
+		c.MaxOf("longest_case_on_virtual_clock_hours", time.Since(t0).Hours())
 	})
 }
 
